@@ -9,7 +9,7 @@
 (*   major minor patch num inc0 inc1 (naturals), bid (digit sequence),     *)
 (*   tag, pytag (names).                                                   *)
 (***************************************************************************)
-EXTENDS BVPattern, BVCalendar, BVLexId
+EXTENDS BVPattern, BVCalendar, BVLexId, BVDeviations
 
 NA == -1    \* calendar field not known
 CalFieldSet == {"year_y","year_g","quarter","month","dom","doy","week_w","week_u","week_v"}
@@ -28,10 +28,11 @@ AllZero(ns, v) == LET ps == PartsIn(ns) IN ps # <<>> /\ \A q \in 1..Len(ps) : Is
 RenderNode(n, v) == CASE n.t = "lit" -> n.s [] n.t = "part" -> Fmt(n.p, v) [] n.t \in {"bol","eol"} -> <<>>
                       [] n.t = "opt" -> IF AllZero(n.body, v) \/ PartsIn(n.body) = <<>> THEN <<>> ELSE RenderSeq(n.body, v)
 RenderSeq(ns, v) == IF ns = <<>> THEN <<>> ELSE RenderNode(ns[1], v) \o RenderSeq(Tail(ns), v)
-\* as the implementation has it (root dropped when all zero)
-Render(v, P) == IF AllZero(P, v) THEN <<>> ELSE RenderSeq(P, v)
 \* as the README has it (only bracketed groups are optional)
 RenderDoc(v, P) == RenderSeq(P, v)
+\* with deviation s12 the root is dropped like a group when all its parts are zero
+RenderD(v, P, s12) == IF s12 /\ AllZero(P, v) THEN <<>> ELSE RenderSeq(P, v)
+Render(v, P) == RenderD(v, P, Dev.s12)
 
 (***************************************************************************)
 (* Reading a version text: captured groups -> state.                       *)
@@ -132,10 +133,9 @@ Incr(oldtext, P, f, date, today, dev) ==
   IN IF f.tag_num /\ c0.tag = "final" /\ (f.tag = NoTag \/ (~dev.s7 /\ f.tag = "final")) THEN None ELSE
      IF AllNines(IF Below1000(c0.bid) THEN Plus1000(c0.bid) ELSE c0.bid) THEN Raises ELSE
   LET c2 == ResetRight(P, v, Numeric(c0, f))
-      t  == Render(c2, P)
+      t  == RenderD(c2, P, dev.s12)
   IN IF t = <<>> \/ t = oldtext THEN None ELSE t
-AsCode == [s6 |-> TRUE, s7 |-> TRUE]
-AsDoc  == [s6 |-> FALSE, s7 |-> FALSE]
+AsDoc  == [s6 |-> FALSE, s7 |-> FALSE, s12 |-> FALSE]
 
 (***************************************************************************)
 (* The README bump rules, one clause per part, independent of how Incr     *)
@@ -163,6 +163,8 @@ BumpClause(F, old, new, f, cal, future) ==
                  ELSE new[F[k]] # ExpectedField(F[k], old, f, cal, future)}
   IN IF badk = {} THEN "ok" ELSE LET k == CHOOSE x \in badk : \A y \in badk : x <= y IN F[k]
 BumpOK(F, old, new, f, cal, future) == BumpClause(F, old, new, f, cal, future) = "ok"
+\* does any rule prescribe a change of a part the pattern shows?  (refusals must be explained by this)
+ExpectsChange(F, old, f, cal, future) == \E k \in 1..Len(F) : F[k] = "bid" \/ ExpectedField(F[k], old, f, cal, future) # old[F[k]]
 \* calendar parts never move backwards (on the fields the pattern shows)
 CalNotBackwards(F, old, new) == ~CalGt([x \in CalFieldSet |-> IF x \in {F[q] : q \in 1..Len(F)} THEN old[x] ELSE NA],
                                        [x \in CalFieldSet |-> IF x \in {F[q] : q \in 1..Len(F)} THEN new[x] ELSE NA])
